@@ -131,7 +131,7 @@ static std::string unhex( const std::string & h ) {
 }
 
 // stream observation shared with the Lean driver:  pos=<bytes consumed> eof=<0|1> fail=<0|1>
-static std::string obs( std::istringstream & in ) {
+static std::string obs( std::istream & in ) {
     bool e = in.eof(), f = in.fail();
     in.clear();
     long p = ( long )in.tellg();
@@ -150,28 +150,49 @@ static int run_fn() {
         std::string bytes = unhex( hex );
         alarm( 3 );
         std::ostringstream r;
+        // "<fn>@f": the same call on a std::ifstream over a file holding the bytes (filebuf: block-wise buffer, one-byte
+        // putback area at a block boundary) instead of a std::istringstream
+        // ("<fn>@s": istringstream.)  Both forms put |arg| bytes of white space (' ', or '\n' for a negative arg) in front.
+        bool viaFile = fn.size() > 2 && fn.compare( fn.size() - 2, 2, "@f" ) == 0;
+        bool padded = viaFile || ( fn.size() > 2 && fn.compare( fn.size() - 2, 2, "@s" ) == 0 );
+        std::istream * inp = 0;
+        char fname[256];
+        if( padded ) {
+            fn.erase( fn.size() - 2 );
+            bytes = std::string( ( size_t )( arg < 0 ? -arg : arg ), arg < 0 ? '\n' : ' ' ) + bytes;
+            arg = 0;
+        }
+        if( viaFile ) {
+            const char * td = getenv( "C05_TMPDIR" );
+            snprintf( fname, sizeof fname, "%s/h_p21safe.fn.%d.p21", td ? td : "/tmp", ( int )getpid() );
+            FILE * tf = fopen( fname, "wb" );
+            if( tf ) { fwrite( bytes.data(), 1, bytes.size(), tf ); fclose( tf ); }
+            inp = new std::ifstream( fname );
+        } else {
+            inp = new std::istringstream( bytes );
+        }
         if( fn == "readreal" ) {
-            std::istringstream in( bytes );
+            std::istream & in = *inp;
             SDAI_Real v = 0; ErrorDescriptor e;
             int assigned = ReadReal( v, in, &e, ",)" );
             r << "ok assigned=" << assigned;
         } else if( fn == "skipinst" || fn == "findstart" ) {
-            std::istringstream in( bytes );
+            std::istream & in = *inp;
             std::string inst;
             Severity s = ( fn == "skipinst" ) ? SkipInstance( in, inst ) : FindStartOfInstance( in, inst );
             r << "ok sev=" << ( int )s << " len=" << inst.size() << " " << obs( in );
         } else if( fn == "readcomment" ) {
-            std::istringstream in( bytes );
+            std::istream & in = *inp;
             std::string s;
             const char * p = ReadComment( in, s );
             r << "ok ret=" << ( p ? 1 : 0 ) << " len=" << s.size() << " " << obs( in );
         } else if( fn == "toksep" ) {
-            std::istringstream in( bytes );
+            std::istream & in = *inp;
             std::string s;
             ReadTokenSeparator( in, &s );
             r << "ok " << obs( in );
         } else if( fn == "findheader" ) {
-            std::istringstream in( bytes );
+            std::istream & in = *inp;
             InstMgr im; SF sf( reg, im );
             int f = sf.FindHeaderSection( in );
             r << "ok found=" << f << " " << obs( in );
@@ -214,19 +235,19 @@ static int run_fn() {
             r << "ok obj=" << ( ( o && o != ENTITY_NULL ) ? 1 : 0 );
             if( o && o != ENTITY_NULL ) delete o;
         } else if( fn == "getkeyword" ) {
-            std::istringstream in( bytes );
+            std::istream & in = *inp;
             ErrorDescriptor e;
             std::string kw = GetKeyword( in, ";( /\\", e );
             r << "ok len=" << kw.size() << " " << obs( in );
         } else if( fn == "readheader" ) {
             // ReadHeader on the bytes: ReadTokenSeparator, FindHeaderSection, the loop over the header instances
-            std::istringstream in( bytes );
+            std::istream & in = *inp;
             InstMgr im; SF sf( reg, im );
             sf.ReadHeader( in );
             r << "ok " << obs( in );
         } else if( fn == "append1" ) {
             // pass 1 of AppendFile: without a file name the stream for the second pass cannot be opened
-            std::istringstream in( bytes );
+            std::istream & in = *inp;
             InstMgr im; SF sf( reg, im );
             sf.AppendFile( &in );
             r << "ok cnt=" << im.InstanceCount() << " " << obs( in );
@@ -234,7 +255,7 @@ static int run_fn() {
         } else if( fn == "recover" ) {
             // STEPread of an entity without attributes: `(`, token separator, one character; unless that is `)` the
             // `);` recovery scan runs from there
-            std::istringstream in( bytes );
+            std::istream & in = *inp;
             InstMgr im;
             SDAI_Application_instance * o = reg.ObjCreate( "Bare" );
             if( !o || o == ENTITY_NULL ) { r << "no-entity"; }
@@ -244,13 +265,13 @@ static int run_fn() {
                 delete o;
             }
         } else if( fn == "finddata" ) {
-            std::istringstream in( bytes );
+            std::istream & in = *inp;
             InstMgr im; SF sf( reg, im );
             int f = sf.FindDataSection( in );
             r << "ok found=" << f << " " << obs( in );
         } else if( fn == "subsuperb" ) {
             // CreateSubSuperInstance on the bytes of an external mapping (the stream is positioned at its "(")
-            std::istringstream in( bytes );
+            std::istream & in = *inp;
             InstMgr im; SF sf( reg, im );
             std::istringstream hdr( "HEADER;FILE_DESCRIPTION((''),'2;1');FILE_NAME('','',(''),(''),'','','');FILE_SCHEMA(('C05A'));ENDSEC;" );
             sf.ReadHeader( hdr );
@@ -260,7 +281,7 @@ static int run_fn() {
             r << "ok " << obs( in );
         } else if( fn == "readdata1" || fn == "readdata1w" ) {
             // pass 1 of the DATA section (the stream is positioned after "DATA;")
-            std::istringstream in( bytes );
+            std::istream & in = *inp;
             InstMgr im; SF sf( reg, im );
             std::istringstream hdr( "HEADER;FILE_DESCRIPTION((''),'2;1');FILE_NAME('','',(''),(''),'','','');FILE_SCHEMA(('C05A'));ENDSEC;" );
             sf.ReadHeader( hdr );
@@ -279,6 +300,8 @@ static int run_fn() {
             r << "bad-op";
         }
         alarm( 0 );
+        delete inp;
+        if( viaFile ) unlink( fname );
         fprintf( proto, "R %s %s\n", idx.c_str(), r.str().c_str() );
         fflush( proto );
     }
